@@ -21,12 +21,13 @@ func BytesItem(tokens []string) *rapid.Generator[Item] {
 	})
 }
 
-var validRunes = []rune{'a', 'Z', '0', ' ', '\n', '\t', 0, 0xe9, 0x6f22, 0x1f469, 0x200b, 0x301, 0xff9e, 0xfffd, 0x10ffff, '"', '<', '|'}
+// rune values, including ones that are not valid code points (a rune is just an int32: such a value reads as U+FFFD)
+var validRunes = []rune{'a', 'Z', '0', ' ', '\n', '\t', 0, 0xe9, 0x6f22, 0x1f469, 0x200b, 0x301, 0xff9e, 0xfffd, 0x10ffff, '"', '<', '|', 0xd800, 0xdfff, -1, 0x110000, 0x600}
 
 // AnyItem draws an item of any kind; depth bounds cell nesting.
 func AnyItem(tokens []string, depth int) *rapid.Generator[Item] {
 	return rapid.Custom(func(t *rapid.T) Item {
-		kinds := []string{"nil", "str", "str", "str", "rune", "int", "i32n", "u8", "f64", "bool", "ints", "bytes", "map", "emap", "sx", "sn", "sns", "psx", "if", "if", "if", "ifp", "tm", "jm", "fmtr", "nstr", "stderr", "fielder", "anonfielder"}
+		kinds := []string{"nil", "str", "str", "str", "rune", "int", "i32n", "u8", "f64", "bool", "ints", "bytes", "map", "emap", "sx", "sn", "sns", "psx", "if", "if", "if", "ifp", "tm", "jm", "fmtr", "nstr", "stderr", "fielder", "anonfielder", "nilstr", "nilerr"}
 		if depth > 0 {
 			kinds = append(kinds, "cell", "cell", "pcell")
 		}
@@ -216,6 +217,12 @@ func ScriptGen(o ScriptOpts) *rapid.Generator[Script] {
 				op.Cap = rapid.IntRange(0, 4).Draw(t, "cell")
 				to := o.Item.Draw(t, "to")
 				op.Items = []Item{{K: "str", S: to.S, G: to.G, E: to.E, N: to.N}}
+				switch rapid.IntRange(0, 3).Draw(t, "resize") {
+				case 0: // the declared sizes change as well
+					op.Items[0].M, op.Items[0].H, op.Items[0].W = 1, rapid.IntRange(0, 4).Draw(t, "newh"), rapid.IntRange(0, 9).Draw(t, "neww")
+				case 1: // ONLY the declared sizes change: the text stays what it is ("keep")
+					op.Items[0] = Item{K: "keep", M: 1, H: rapid.IntRange(0, 4).Draw(t, "newh"), W: rapid.IntRange(0, 9).Draw(t, "neww")}
+				}
 			case "readd":
 				op.Ref = rapid.IntRange(0, 5).Draw(t, "ref")
 				rows = append(rows, rk{attached: true, sep: true}) // no further Add through this alias
